@@ -34,7 +34,7 @@ Ids   == 1..(NB + MaxNew)
 NoVal == {"#NONE"}
 Bad   == {"#BAD"}
 Broken == {"#BROKEN"}       \* reload cannot produce the object at all
-Atoms == {"#I", "#S", "#BAD", "#NONE", "#BROKEN"}
+Atoms == {"#I", "#S", "#T", "#BAD", "#NONE", "#BROKEN"}     \* "#T": a new stream with data of its own (the base stream is "#S")
 IsDict(v) == v \cap Atoms = {}
 Merge(old, new) == IF IsDict(old) /\ IsDict(new) THEN old \cup new ELSE new
 BaseVal(i) == IF i \in BaseStm THEN {"#S"} ELSE {"Z"}
@@ -94,6 +94,14 @@ Create(v) ==
   /\ savedOk' = FALSE
   /\ UNCHANGED <<hdr, cached, disk, ocache, unfulf, backend, saves, stuck>>
   /\ Record("create", 0, v, Alloc, "ok")
+
+\* create of a value that cannot be brought into its primitive form (Updater::create returns Err): nothing is created.
+\* Deviation "failed_create_leaves_promise": the number reserved for it stays promised for ever, and every later save fails
+CreateFails ==
+  /\ calls < MaxCalls /\ "#BAD" \in UNION WVals
+  /\ stuck' = (stuck \/ "failed_create_leaves_promise" \in Dev)
+  /\ UNCHANGED <<hdr, cached, kind, changes, disk, ocache, nnew, unfulf, expected, backend, saves, savedOk>>
+  /\ Record("createfail", 0, NoVal, 0, "err")
 
 \* write v through reference r (shared by update and fulfill)
 Write(op, r, v) ==
@@ -192,6 +200,7 @@ Init ==
 
 Next ==
   \/ \E v \in WVals : Create(v)
+  \/ CreateFails
   \/ \E r \in Ids, v \in WVals : Update(r, v)
   \/ Promise
   \/ \E p \in Ids, v \in WVals : Fulfil(p, v)
